@@ -168,89 +168,173 @@ def run_coeffs(ctx, fs):
 
 
 
-# ------------------------------------------------------------------ RotationMap (genHInfo / apply)
+# ------------------------------------------------------------------ RotationMap (genHInfo / apply / constructor)
 
 class RotCase:
-    def __init__(self, cid, n, it, mapmode, angle, ext, data, coef):
-        self.cid, self.n, self.it, self.mapmode, self.angle, self.ext, self.data, self.coef = cid, n, it, mapmode, angle, ext, data, coef
+    """RotationMap(in, out, xs, ys, angle, it, clamp, rms) on an n x n phase space; data[i0*ys+j0] is the field value at (i0, j0)"""
+    def __init__(self, cid, n, xs, ys, it, rms, clamp, angle, ext, data, coef, aim=""):
+        self.cid, self.n, self.xs, self.ys, self.it, self.rms, self.clamp = cid, n, xs, ys, it, rms, clamp
+        self.angle, self.ext, self.data, self.coef, self.aim = angle, ext, data, coef, aim
 
     def impl_text(self):
-        return "rot %s %d %d %d %s %s %s\n" % (self.cid, self.n, self.it, self.mapmode, fhex(self.angle),
-                                               " ".join(fhex(e) for e in self.ext), " ".join(fhex(v) for v in self.data))
+        return "rotg %s %d %d %d %d %d %d %s %s %s\n" % (self.cid, self.n, self.xs, self.ys, self.it, self.rms, 1 if self.clamp else 0,
+                                                     fhex(self.angle), " ".join(fhex(e) for e in self.ext), " ".join(fhex(v) for v in self.data))
 
     def replay(self):
-        return dict(kind="rot", n=self.n, it=self.it, mapmode=self.mapmode, angle=fhex(self.angle), ext=[fhex(e) for e in self.ext],
-                    coef=self.coef, data=[fhex(v) for v in self.data] if self.coef is None else "polynomial")
+        return dict(kind="rot", n=self.n, xs=self.xs, ys=self.ys, it=self.it, rotmapsize=self.rms, clamp=self.clamp, angle=fhex(self.angle),
+                    ext=[fhex(e) for e in self.ext], coef=self.coef, aim=self.aim,
+                    data=[fhex(v) for v in self.data] if self.coef is None else "polynomial")
 
 
 def rot_cases(ctx, count):
+    """aimed at the case splits of genHInfo / apply / the constructor: angle 0 (identity), +-pi/2 and pi (whole-cell maps when the
+    extents are symmetric), small and random angles (cells whose stencil leaves the grid, cells whose origin leaves it), it = 1..4,
+    precomputed table and on-the-fly map, clamp on (cubic + table; data with overshoot: isolated peaks, signed data, all-zero
+    neighbourhoods), refused clamp configurations, sizes xs != ys (the constructor takes them separately), shifted extents"""
     rng = ctx.rng
     import math
     cases = []
+    angles = [0.0, math.pi / 2, -math.pi / 2, math.pi, 0.05, -0.05, 0.2, -0.3]
     for i in range(count):
-        n = rng.choice(range(6, 15))
-        it = rng.choice([1, 2, 3, 4])
-        mapmode = rng.choice([0, 1, 1])
-        angle = f32(rng.choice([0.0, math.pi / 2, math.pi, 0.05, 0.2, -0.3, rng.uniform(-1.5, 1.5), rng.uniform(0.01, 0.4)]))
-        ext = rng.choice([(-6.0, 6.0, -6.0, 6.0), (-5.0, 7.0, -6.0, 6.0), (-4.0, 4.0, -3.0, 5.0), (-6.0, 6.0, -8.0, 4.0)])
-        if rng.random() < 0.6:
-            coef = [[rng.randint(-2, 2) for _ in range(it)] for _ in range(it)]     # coef[k][l] x^k y^l
-            data = [float(sum(coef[k][l] * x ** k * y ** l for k in range(it) for l in range(it))) for x in range(n) for y in range(n)]
+        it = rng.choice([1, 2, 3, 4, 4])
+        sq = rng.random() < 0.6
+        xs = rng.choice(range(6, 15))
+        ys = xs if sq else rng.choice([y for y in range(5, 15) if y != xs])
+        n = max(xs, ys)
+        table = rng.random() < 0.65
+        rms = xs * ys if table else 0
+        clamp = False
+        aim = []
+        r = rng.random()
+        if it == 4 and table and r < 0.6:
+            clamp = True
+            aim.append("clamp")
+        elif r > 0.93:
+            clamp = True                      # refused by the constructor unless cubic with a table
+            aim.append("clamp-refused" if not (it == 4 and table) else "clamp")
+        angle = f32(rng.choice(angles + [rng.uniform(-1.5, 1.5), rng.uniform(0.01, 0.4)]))
+        ext = rng.choice([(-6.0, 6.0, -6.0, 6.0), (-6.0, 6.0, -6.0, 6.0), (-5.0, 7.0, -6.0, 6.0), (-4.0, 4.0, -3.0, 5.0), (-6.0, 6.0, -8.0, 4.0)])
+        data = [0.0] * (n * n)
+        coef = None
+        if clamp or rng.random() < 0.4:
+            kind = rng.choice(["peaks", "signed", "dense"])
+            for g in range(xs * ys):
+                if kind == "peaks":
+                    data[g] = float(rng.randint(1, 8)) if rng.random() < 0.12 else 0.0
+                elif kind == "signed":
+                    data[g] = float(rng.randint(-8, 8)) if rng.random() < 0.6 else 0.0
+                else:
+                    data[g] = float(rng.randint(0, 8))
+            aim.append(kind)
         else:
-            coef = None
-            data = [float(rng.randint(-8, 8)) if rng.random() < 0.6 else 0.0 for _ in range(n * n)]
-        cases.append(RotCase("r%d" % i, n, it, mapmode, angle, ext, data, coef))
+            coef = [[rng.randint(-2, 2) for _ in range(it)] for _ in range(it)]     # coef[k][l] x^k y^l
+            for x in range(xs):
+                for y in range(ys):
+                    data[x * ys + y] = float(sum(coef[k][l] * x ** k * y ** l for k in range(it) for l in range(it)))
+        if not sq:
+            aim.append("rect")
+        cases.append(RotCase("r%d" % i, n, xs, ys, it, rms, clamp, angle, ext, data, coef, ",".join(aim)))
         ctx.count("rot:it%d" % it)
-        ctx.count("rot:map%d" % mapmode)
+        ctx.count("rot:%s" % ("table" if table else "onthefly"))
+        if clamp:
+            ctx.count("rot:clamp")
+        if not sq:
+            ctx.count("rot:rect")
     return cases
 
 
 def run_rot(ctx, cases):
-    """RotationMap through the implementation, the model on the implementation's own (cos, sin,
-    axes); table index exact, weights and outputs in tolerance; oracles: weights of a fully
-    interior grid point sum to one, polynomial fields x^k y^l (k,l < it) are reproduced at the
-    rotated coordinate of every fully interior point."""
+    """RotationMap through the implementation; the model ASSEMBLED FROM THE GENERATED DEFINITIONS (Model/RotationGen.v over
+    Gen_Rotation.v) and the hand-written model (Model/Rotation.v) on the implementation's own (cos, sin, axes).  Members, refusals
+    and table indices exact; weights and outputs in tolerance; generated and hand-written model identical.  Oracles on the
+    implementation: every table index inside the grid, weights of a fully interior grid point sum to one, polynomial fields
+    x^k y^l (k,l < it) reproduced at the rotated coordinate of every fully interior point (unclamped maps)."""
+    import math
     tg = ctx.build()
     rc, out, err = run_driver(tg["impl_kick"], "".join(c.impl_text() for c in cases))
     if rc != 0:
         raise RuntimeError("impl_kick (rot) failed rc=%d: %s" % (rc, err[-1500:]))
     impl = parse_cases(out)
     mtext = []
+    live = []
+    dis = []
     for c in cases:
         r = impl[c.cid]
+        refused = bool(c.clamp and not (c.it == 4 and c.rms > 0))      # what the model's generated refusal test must say too
+        thrown = r["thrown"][0][0] == "1"
+        if thrown:
+            # the model side of a refused configuration needs no axes: members only (dummy parameters)
+            one, zero = qtok(Fraction(1)), qtok(Fraction(0))
+            mtext.append("rotg %s %d %d %d %d %d 0 %s %s %s\n" % (c.cid, c.xs, c.ys, c.it, c.rms, 1 if c.clamp else 0,
+                                                                 " ".join([one, zero, one, one, zero, zero]), " ".join([zero] * c.xs), " ".join([zero] * c.ys)))
+            continue
+        live.append(c)
         par = [parse_c(t) for t in r["par"][0]]
         ax = [parse_c(t) for t in r["ax"][0]]
         ay = [parse_c(t) for t in r["ay"][0]]
-        mtext.append("rot %s %d %d %s %s %s %s\n" % (c.cid, c.n, c.it, " ".join(qtok(v) for v in par), " ".join(qtok(v) for v in ax),
-                                                     " ".join(qtok(v) for v in ay), " ".join(qtok(Fraction(v)) for v in c.data)))
+        mtext.append("rotg %s %d %d %d %d %d %d %s %s %s %s\n" % (c.cid, c.xs, c.ys, c.it, c.rms, 1 if c.clamp else 0, len(c.data),
+                                                              " ".join(qtok(v) for v in par), " ".join(qtok(v) for v in ax),
+                                                              " ".join(qtok(v) for v in ay), " ".join(qtok(Fraction(v)) for v in c.data)))
     rc, out, err = run_driver(model_driver_path("kick"), "".join(mtext))
     if rc != 0:
         raise RuntimeError("model_kick (rot) failed rc=%d: %s" % (rc, err[-1500:]))
     model = parse_cases(out)
-    dis = []
     for c in cases:
-        n, it = c.n, c.it
-        ip = it * it
         r, m = impl[c.cid], model[c.cid]
+        mm = [int(t, 16) for t in m["members"][0]]
+        thrown = r["thrown"][0][0] == "1"
+        if thrown != (mm[6] == 1):
+            dis.append(dict(case=c.replay(), detail=dict(impl_throws=thrown, generated_refusal_test=mm[6] == 1),
+                            sig=dict(kind="rot", stage="correspondence", what="refusal")))
+            continue
+        if thrown:
+            ctx.count("rot:refused")
+            ctx.evaluations += 1
+            continue
+        im = [int(t) for t in r["members"][0]]
+        if im != mm[:6]:
+            dis.append(dict(case=c.replay(), detail=dict(impl_members=im, generated_members=mm[:6],
+                                                         order="xsize ysize it ip rotmapsize clamp"),
+                            sig=dict(kind="rot", stage="correspondence", what="members")))
+            continue
+        xs, ys, it = c.xs, c.ys, c.it
+        ip = it * it
+        ncell = xs * ys
         defined = [t == "1" for t in m["defined"][0]]
         mt = m["table"][0]
         mtab = [(int(mt[k], 16), parse_q(mt[k + 1])) for k in range(0, len(mt), 2)]
-        mout = [parse_q(t) for t in m["out"][0]]
+        ht = m["htable"][0]
+        htab = [(int(ht[k], 16), parse_q(ht[k + 1])) for k in range(0, len(ht), 2)]
+        mo = m["out"][0]
+        mcell = [int(mo[k], 16) for k in range(0, len(mo), 2)]
+        mout = [parse_q(mo[k + 1]) for k in range(0, len(mo), 2)]
+        hout = [parse_q(t) for t in m["hout"][0]]
         iout = [parse_c(t) for t in r["out"][0]]
         itab = None
-        if c.mapmode:
+        if c.rms:
             tt = r["table"][0]
             itab = [(int(tt[k]), parse_c(tt[k + 1])) for k in range(0, len(tt), 2)]
         par = [parse_c(t) for t in r["par"][0]]
         ax = [parse_c(t) for t in r["ax"][0]]
         ay = [parse_c(t) for t in r["ay"][0]]
         cs, sn, d0, d1, z0, z1 = [float(v) for v in par]
-        bad = False
         cdis = False
-        for g in range(n * n):
+        if mcell != list(range(ncell)) or len(mout) != ncell:
+            dis.append(dict(case=c.replay(), detail=dict(what="the generated apply does not write cells 0..xs*ys-1 in order", cells=mcell[:8]),
+                            sig=dict(kind="rot", stage="correspondence", what="cells")))
+            continue
+        for g in range(ncell):
             if not defined[g]:
-                continue          # negative float -> unsigned conversion: undefined behaviour (C17)
+                continue          # float -> unsigned conversion outside (-1, 2^32): undefined behaviour (C17)
             ent = mtab[g * ip:(g + 1) * ip]
+            # generated model == hand-written model (theorem C02_rot_generated_is_model, here on this run's inputs)
+            if ent != htab[g * ip:(g + 1) * ip] or mout[g] != hout[g]:
+                if not cdis:
+                    dis.append(dict(case=c.replay(), detail=dict(point=g, what="generated and hand-written model differ",
+                                                                 generated=[[i, str(w)] for i, w in ent][:4], hand=[[i, str(w)] for i, w in htab[g * ip:(g + 1) * ip]][:4],
+                                                                 out=[str(mout[g]), str(hout[g])]),
+                                    sig=dict(kind="rot", stage="correspondence", what="generated-vs-hand")))
+                cdis = True
             if itab is not None:
                 for j in range(ip):
                     (ii, iw), (mi, mw) = itab[g * ip + j], ent[j]
@@ -260,10 +344,16 @@ def run_rot(ctx, cases):
                                             sig=dict(kind="rot", stage="correspondence", what="table")))
                         cdis = True
                         break
+                # oracle (C17 flavour): every index the table holds addresses the xs*ys grid
+                worst = max(i for i, _ in itab[g * ip:(g + 1) * ip])
+                if worst >= ncell:
+                    ctx.violation("impl-oracle", "RotationMap table entry points outside the grid", case=c.replay(),
+                                  observed=dict(point=g, index=worst), expected="< %d" % ncell, sig=dict(kind="rot", clause="index-range"))
+                    cdis = True
             cond = sum(abs(w) * abs(Fraction(c.data[idx])) for idx, w in ent)
             # the float weights carry an ABSOLUTE error of a few 2^-24 (1 - f*f for f near 1 cancels: relative to the
             # weight the error is unbounded), and each is multiplied by its data value: 16*2^-24*Sum|data_j| over the
-            # stencil in addition to the relative part
+            # stencil in addition to the relative part (the clamp is 1-Lipschitz in the interpolated value: same tolerance)
             cond2 = sum(abs(Fraction(c.data[idx])) for idx, w in ent if not (idx == 0 and w == 0))
             tol = Fraction(48, 2 ** 24) * max(cond, 1) + Fraction(16, 2 ** 24) * cond2
             if isinstance(iout[g], str) or abs(iout[g] - mout[g]) > tol:
@@ -271,24 +361,25 @@ def run_rot(ctx, cases):
                     dis.append(dict(case=c.replay(), detail=dict(point=g, impl=str(iout[g]), model=str(mout[g]), tol=str(tol)),
                                     sig=dict(kind="rot", stage="correspondence", what="out")))
                 cdis = True
+            if c.clamp:
+                ctx.case_done(("rot-clamp", c.cid, g), mout[g] != sum(Fraction(c.data[idx]) * w for idx, w in ent))
             # ---- oracles on the implementation (fully interior stencil only)
-            x0, y0 = divmod(g, n)
+            x0, y0 = divmod(g, ys)
             x1r = f32(f32(f32(f32(cs * float(ax[x0])) - f32(sn * float(ay[y0]))) / d0) + z0)
             y1r = f32(f32(f32(f32(sn * float(ax[x0])) + f32(cs * float(ay[y0]))) / d1) + z1)
-            import math
             x1, y1 = math.floor(x1r), math.floor(y1r)
             cen = kc.centre(it)
-            interior = (0 <= x1 - cen and x1 + it - 1 - cen < n and 0 <= y1 - cen and y1 + it - 1 - cen < n)
+            interior = (0 <= x1 - cen and x1 + it - 1 - cen < xs and 0 <= y1 - cen and y1 + it - 1 - cen < ys)
             if not interior:
+                ctx.count("rot:edge-cell")
                 continue
             if itab is not None:
                 sw = sum(w for _, w in itab[g * ip:(g + 1) * ip])
                 if abs(sw - 1) > Fraction(64, 2 ** 24):
                     ctx.violation("impl-oracle", "rotation weights of an interior grid point do not sum to one", case=c.replay(),
                                   observed=dict(point=g, sum=str(sw)), expected="1 +- 64*2^-24", sig=dict(kind="rot", clause="unity", it=it))
-                    bad = True
                     break
-            if c.coef is not None:
+            if c.coef is not None and not c.clamp:
                 X, Y = Fraction(x1r), Fraction(y1r)
                 exp = sum(c.coef[k][l] * X ** k * Y ** l for k in range(it) for l in range(it))
                 scale = sum(abs(c.coef[k][l]) * (abs(X) + 2) ** k * (abs(Y) + 2) ** l for k in range(it) for l in range(it))
@@ -296,7 +387,6 @@ def run_rot(ctx, cases):
                     ctx.violation("impl-oracle", "polynomial field x^k y^l (k,l < %d) not reproduced at the rotated coordinate" % it,
                                   case=c.replay(), observed=dict(point=g, value=str(iout[g])), expected=str(exp),
                                   sig=dict(kind="rot", clause="poly", it=it))
-                    bad = True
                     break
                 ctx.case_done(("rot", c.cid, g), it > 1 and c.angle != 0)
         ctx.evaluations += 1
